@@ -618,31 +618,172 @@ func c19Selector(c *core.Ctx, pkg *packages.Package) {
 		})
 		c.Check(len(bad) == 0, "R4", "jumpHash:pure", fn.Pos(), fmt.Sprintf("jumpHash reads only its arguments (no clock, randomness, map iteration or package state): %v", bad), 1)
 		// one algorithm for every bucket count: a key keeps its bucket when buckets are appended only because the
-		// same jump sequence is cut at a later point, so no bucket count may take another route to a result —
-		// one return, behind the one loop, returning the loop's last bucket
-		rets, loops := 0, 0
-		var retOK bool
-		fn.InspectDeep(func(n ast.Node) bool {
-			switch x := n.(type) {
-			case *ast.ReturnStmt:
-				rets++
-				if len(x.Results) == 1 {
-					v := fn.Canon(x.Results[0])
-					retOK = strings.HasPrefix(v, "int32(") && !strings.Contains(v, "p0") && !strings.Contains(v, "p1")
-				}
-			case *ast.ForStmt, *ast.RangeStmt:
-				loops++
-			}
-			return true
-		})
-		branches := 0
+		// same jump sequence is cut at a later point, so no bucket count may take another route to a result.
+		// Every return is (a) the loop's last bucket — a local whose non-constant definitions all lie inside the one
+		// loop — or (b) the constant 0 behind a test that bounds the bucket count by 1 (the loop answers 0 there too);
+		// the parameters are not reassigned outside the loop.
+		var loops []ast.Node
 		fn.InspectDeep(func(n ast.Node) bool {
 			switch n.(type) {
-			case *ast.IfStmt, *ast.SwitchStmt, *ast.TypeSwitchStmt, *ast.SelectStmt:
-				branches++
+			case *ast.ForStmt, *ast.RangeStmt:
+				loops = append(loops, n)
 			}
 			return true
 		})
-		c.Check(rets == 1 && loops == 1 && branches == 0 && retOK, "R4", "jumpHash:one-path", fn.Pos(), fmt.Sprintf("%d return, %d loop, %d branches outside the loop condition: every bucket count runs the same jump sequence (append-stability needs it)", rets, loops, branches), 1)
+		inLoop := func(pos token.Pos) bool {
+			for _, l := range loops {
+				if l.Pos() <= pos && pos < l.End() {
+					return true
+				}
+			}
+			return false
+		}
+		stripConv := func(e ast.Expr) ast.Expr {
+			for {
+				e = an.Unparen(e)
+				call, ok := e.(*ast.CallExpr)
+				if !ok || len(call.Args) != 1 {
+					return e
+				}
+				if tv, ok := fn.Info().Types[call.Fun]; !ok || !tv.IsType() {
+					return e
+				}
+				e = call.Args[0]
+			}
+		}
+		intConst := func(e ast.Expr) (int64, bool) {
+			if tv, ok := fn.Info().Types[e]; ok && tv.Value != nil && tv.Value.Kind() == constant.Int {
+				return constant.Int64Val(tv.Value)
+			}
+			return 0, false
+		}
+		var params []types.Object
+		if ft := fn.FuncType(); ft != nil && ft.Params != nil {
+			for _, fld := range ft.Params.List {
+				for _, nm := range fld.Names {
+					params = append(params, fn.Info().Defs[nm])
+				}
+			}
+		}
+		isParam := func(o types.Object) bool {
+			for _, p := range params {
+				if p == o && o != nil {
+					return true
+				}
+			}
+			return false
+		}
+		// upper bound on the bucket count (second parameter) implied by cond being true; ok=false if none
+		var boundOf func(cond ast.Expr) (int64, bool)
+		boundOf = func(cond ast.Expr) (int64, bool) {
+			be, ok := an.Unparen(cond).(*ast.BinaryExpr)
+			if !ok {
+				return 0, false
+			}
+			if be.Op == token.LAND {
+				b1, ok1 := boundOf(be.X)
+				b2, ok2 := boundOf(be.Y)
+				switch {
+				case ok1 && ok2:
+					return min(b1, b2), true
+				case ok1:
+					return b1, true
+				case ok2:
+					return b2, true
+				}
+				return 0, false
+			}
+			x, y, op := stripConv(be.X), stripConv(be.Y), be.Op
+			if _, isC := intConst(x); isC {
+				x, y = y, x
+				switch op {
+				case token.LSS:
+					op = token.GTR
+				case token.LEQ:
+					op = token.GEQ
+				case token.GTR:
+					op = token.LSS
+				case token.GEQ:
+					op = token.LEQ
+				}
+			}
+			cv, isC := intConst(y)
+			if !isC || len(params) < 2 || fn.ObjOf(x) != params[1] {
+				return 0, false
+			}
+			switch op {
+			case token.LEQ, token.EQL:
+				return cv, true
+			case token.LSS:
+				return cv - 1, true
+			}
+			return 0, false
+		}
+		loopRets, shortcutRets := 0, 0
+		var badRets []string
+		fn.InspectDeep(func(n ast.Node) bool {
+			rs, ok := n.(*ast.ReturnStmt)
+			if !ok {
+				return true
+			}
+			if len(rs.Results) != 1 {
+				badRets = append(badRets, "return with other than one result")
+				return true
+			}
+			r := stripConv(rs.Results[0])
+			if cv, isC := intConst(r); isC {
+				// constant answer: needs an enclosing if whose condition bounds the bucket count by 1
+				okc := false
+				fn.InspectDeep(func(m ast.Node) bool {
+					if is, ok := m.(*ast.IfStmt); ok && is.Init == nil && is.Body.Pos() <= rs.Pos() && rs.End() <= is.Body.End() {
+						if b, ok := boundOf(is.Cond); ok && b <= 1 && (cv == 0 || b <= 0) {
+							okc = true
+						}
+					}
+					return true
+				})
+				if okc {
+					shortcutRets++
+				} else {
+					badRets = append(badRets, fmt.Sprintf("constant answer %d not behind a test bounding the bucket count by 1", cv))
+				}
+				return true
+			}
+			obj := fn.ObjOf(r)
+			if obj == nil || isParam(obj) {
+				badRets = append(badRets, "answer "+types.ExprString(rs.Results[0])+" is not the loop's bucket variable")
+				return true
+			}
+			okv, someLoop := true, false
+			for _, d := range fn.DefSites(obj) {
+				if d.Zero {
+					continue
+				}
+				if d.Expr != nil {
+					if _, isC := intConst(d.Expr); isC {
+						continue
+					}
+				}
+				if inLoop(d.Pos) {
+					someLoop = true
+					continue
+				}
+				okv = false
+			}
+			if okv && someLoop && len(loops) == 1 && !inLoop(rs.Pos()) && rs.Pos() >= loops[0].End() {
+				loopRets++
+			} else {
+				badRets = append(badRets, "answer "+types.ExprString(rs.Results[0])+" has a definition outside the one loop (or the return is not behind it)")
+			}
+			return true
+		})
+		for _, p := range params {
+			for _, d := range fn.DefSites(p) {
+				if !d.Param && !inLoop(d.Pos) {
+					badRets = append(badRets, "parameter "+p.Name()+" reassigned outside the loop")
+				}
+			}
+		}
+		c.Check(len(loops) == 1 && loopRets >= 1 && len(badRets) == 0, "R4", "jumpHash:one-path", fn.Pos(), fmt.Sprintf("%d loop(s), %d return(s) of the loop's last bucket, %d constant shortcut(s) for a bucket count ≤ 1, other routes to an answer: %v — every bucket count runs the same jump sequence (append-stability needs it)", len(loops), loopRets, shortcutRets, badRets), 1)
 	}
 }
